@@ -221,6 +221,33 @@ func body(fam t1fonts.Family) func(c *mc.Ctx, item int) mc.Verdict {
 		if len(diffs) > 0 {
 			return fail("C08:encoding:subset-of-StandardEncoding-written-as-StandardEncoding", diffs[0].Detail)
 		}
+		// The same font value, edited in place and written again (one item in four,
+		// chosen by a pure function of the item): the second file says what the
+		// edited font says, whatever the first write may have remembered.
+		if item%4 == 1 && len(diffs) == 0 {
+			t1fonts.EditInPlace(src)
+			t1fonts.EditInPlace(pristine)
+			buf.Reset()
+			if form == 4 {
+				_, _, err = src.WritePDF(&buf)
+			} else {
+				err = src.Write(&buf, &type1.WriterOptions{Format: formFormats[form]})
+			}
+			if err != nil {
+				return fail("C08:write-error", "second write after an in-place edit: "+err.Error())
+			}
+			dec2, derr2 := t1dec.Decode(buf.Bytes(), form == 4)
+			c.Steps(2)
+			if derr2 != nil {
+				return fail("C08:rewrite-after-edit:decode:"+derr2.Class, "file written after an in-place edit: independent decoder: "+derr2.Msg)
+			}
+			for _, d := range t1fonts.CompareDecoded(pristine, dec2) {
+				if d.Class == "encoding" && dec2.IsStdEnc && subsetOfStandard(pristine) {
+					continue
+				}
+				return fail("C08:rewrite-after-edit:"+d.Class, "after editing the font in place (every coordinate +3, every stem edge +1) and writing it again: "+d.Detail)
+			}
+		}
 		compared := 0
 		for n := range pristine.Glyphs {
 			if _, ok := dec.Glyphs[n]; ok {
